@@ -921,6 +921,8 @@ func (s *AbsfsNFS) Export(mountPath string, port int) error {
 		ReadOnly: s.policy.Load().ReadOnly,
 		Port:     port,
 		Hostname: "localhost",
+		// Standard NFS clients frame RPC over TCP with record marking (RFC 1831 section 10).
+		UseRecordMarking: true,
 	})
 	if err != nil {
 		return err
